@@ -496,6 +496,9 @@ class Domain(object):
                 state = state.with_extra(**{}) if False else state
                 st0 = state.copy()
                 st0.extra[('hexc', node.info['hkey'])] = state.extra.get('exc_src', '?')
+                if node.frame.parent is None:
+                    hs = st0.extra.get('root_handlers', frozenset())
+                    st0.extra['root_handlers'] = hs | {node.info['handler'].lineno}
                 state = st0
             if node.info.get('finally_tag', '').startswith('exc:'):
                 st0 = state.copy()
